@@ -18,15 +18,15 @@ Shape == {"same", "single", "second", "virtual", "two"}
 Pos   == {0, 1, 2}
 Cat   == {"val_l", "val_r", "lref", "clref", "rref", "moveonly"}
 
-(* how the result comes back: by value, nothing, a reference, a move-only object, a copy-counting object.  The   *)
-(* return kind is a derived attribute (it rotates through the family, so every parameter kind and every category *)
-(* meets every return kind without multiplying the number of programs by five)                                   *)
-RetSeq == <<"val", "void", "ref", "moveonly", "tracked">>
+(* how the result comes back: by value, nothing, a reference, a move-only object, a copy-counting object, a       *)
+(* pointer that needs an adjustment.  The return kind is a derived attribute (it rotates through the family, so    *)
+(* every parameter kind and every category meets every return kind without multiplying the number of programs)     *)
+RetSeq == <<"val", "void", "ref", "moveonly", "tracked", "covptr">>    \* covptr: a pointer converted to a base at a non-zero offset
 Ret == {RetSeq[i] : i \in DOMAIN RetSeq}
 KindIdx == "ref" :> 0 @@ "rref" :> 1 @@ "ptr" :> 2 @@ "shared" :> 3 @@ "cshared" :> 4 @@ "vptr" :> 5 @@ "vshared" :> 6 @@ "cvptr" :> 7 @@ "cvshared" :> 8
 ShapeIdx == "same" :> 0 @@ "single" :> 1 @@ "second" :> 2 @@ "virtual" :> 3 @@ "two" :> 4
 CatIdx == "val_l" :> 0 @@ "val_r" :> 1 @@ "lref" :> 2 @@ "clref" :> 3 @@ "rref" :> 4 @@ "moveonly" :> 5
-RetOf(k, s, p, c) == RetSeq[((KindIdx[k] + 2 * ShapeIdx[s] + p + 3 * CatIdx[c]) % 5) + 1]
+RetOf(k, s, p, c) == RetSeq[((KindIdx[k] + 2 * ShapeIdx[s] + p + 3 * CatIdx[c]) % 6) + 1]
 Family == {[kind |-> k, shape |-> s, pos |-> p, cat |-> c, ret |-> RetOf(k, s, p, c)] : k \in Kind, s \in Shape, p \in Pos, c \in Cat}
 
 SharedKinds == {"shared", "cshared", "vshared", "cvshared"}
